@@ -73,13 +73,15 @@ fn verif_run_sched_script() {
     let time = AtomicTime::new(TearableAtomicTime::new(MonotonicTime::EPOCH));
     let scheduler = GlobalScheduler::new(queue, time.reader());
     let mut tasks: Vec<TaskSlot> = Vec::new();
-    let sms = std::mem::take(&mut b.sms);
-    let mboxes = std::mem::take(&mut b.mboxes);
-    for (i, (model, mailbox)) in sms.into_iter().zip(mboxes.into_iter()).enumerate() {
+    let mut sms: Vec<Option<SM>> = std::mem::take(&mut b.sms).into_iter().map(Some).collect();
+    let mut mboxes: Vec<Option<Mailbox<SM>>> = std::mem::take(&mut b.mboxes).into_iter().map(Some).collect();
+    // tasks in the order add_model spawns them (sub-models before their parent), under their qualified names
+    for i in b.spawn_order() {
+        let (model, mailbox) = (sms[i].take().unwrap(), mboxes[i].take().unwrap());
         // as in simulation::add_model
         let address = mailbox.address();
         let mut receiver = mailbox.0;
-        let mut cx = Context::new(b.models[i].0.clone(), scheduler.clone(), address);
+        let mut cx = Context::new(b.qualified_name(i), scheduler.clone(), address);
         let fut = async move {
             let mut model = model.init(&mut cx).await.0;
             while receiver.recv(&mut model, &mut cx).await.is_ok() {}
